@@ -1037,7 +1037,8 @@ Proof.
     cbn [res_map] in E. injection E as E. exists fin. split; [exact Q | exact E]. }
   clear E. destruct RM as (fin & E & EF).
   apply bind_ok in E as (enc2 & PE2 & E). apply bind_ok in PE2 as (enc_ivt & UI & PE2). apply bind_ok in PE2 as (cb & CB & PE2).
-  injection PE2 as <-. change HMAC_OFF with 64%nat in UI. exists app', (flat rs), cb, enc_ivt, kb, kt.
+  apply (f_equal (fun r : res image => match r with Ok v => v | Err _ => [] end)) in PE2. cbv beta iota in PE2. subst enc2.
+  change HMAC_OFF with 64%nat in UI. exists app', (flat rs), cb, enc_ivt, kb, kt.
   split; [reflexivity|]. split; [rewrite HIV; discriminate|]. split; [exact U|]. split; [exact TB|]. cbv zeta. fold P. fold EE.
   split; [exact UI|]. split; [exact CB|].
   unfold sign in E. rewrite Psign in E. rewrite bind_Ok in E. cbv beta iota delta [fst snd] in E.
@@ -1058,8 +1059,8 @@ Proof.
   destruct (Z.ltb_spec (app_len c x) 64) as [Lt|Ge]; [rewrite (REJ Lt) in E; discriminate|]. split; [exact Ge|].
   assert (L64 : (64 <= length EE)%nat) by (rewrite LE; rewrite AL in Ge; unfold zlen in Ge; lia).
   assert (Lei : length enc_ivt = 64%nat).
-  { rewrite (update_ivt_length c x (firstn 64 EE) _ _ enc_ivt) by (try exact UI; rewrite firstn_length; lia). rewrite firstn_length. lia. }
-  destruct (ivt_words c x (firstn 64 EE) _ _ enc_ivt) as (_ & IW2 & _ & _); [rewrite firstn_length; lia | exact UI|].
+  { rewrite (update_ivt_length c x (firstn 64 EE) (total_len c x + Z.of_nat sg + 56 + 16) (app_len c x) enc_ivt) by (try exact UI; rewrite firstn_length; lia). rewrite firstn_length. lia. }
+  destruct (ivt_words c x (firstn 64 EE) (total_len c x + Z.of_nat sg + 56 + 16) (app_len c x) enc_ivt) as (_ & IW2 & _ & _); [rewrite firstn_length; lia | exact UI|].
   pose proof (flags_decode_lemma c x R1 R2 R3) as (_ & _ & _ & _ & _ & F5 & _).
   assert (ACC' : forall st, exists im', finalize k c x (segs2 ++ [k_sign k (flat segs2)]) (flat segs2) = Ok im' /\
                    flat im' = firstn 64 (flat (segs2 ++ [k_sign k (flat segs2)])) ++
@@ -1077,4 +1078,23 @@ Proof.
   destruct (ACC' x) as (im' & FE & FL & _).
   rewrite FE in E. injection E as <-. subst im. rewrite FL, FI, HK. split; [reflexivity|].
   intros st. destruct (ACC' st) as (im2 & FE2 & FL2 & FR2). rewrite FE in FE2. injection FE2 as <-. rewrite FL, FI, HK in FR2. exact FR2.
+Qed.
+
+Lemma firstn_sub_cat (l : list N) a b : (a <= b)%nat -> firstn a l ++ sub l a b = firstn b l.
+Proof.
+  unfold sub, slice. revert l b; induction a as [|a IH]; intros l b H.
+  - cbn [firstn skipn app]. now rewrite Nat.sub_0_r.
+  - destruct l as [|h t]; [now rewrite !firstn_nil|]. destruct b as [|b]; [lia|].
+    cbn [firstn skipn app Nat.sub]. f_equal. apply IH. lia.
+Qed.
+Lemma split4 (l : list N) a : (64 <= a)%nat -> firstn 56 l ++ sub l 56 64 ++ sub l 64 a ++ skipn a l = l.
+Proof.
+  intros H. rewrite app_assoc, firstn_sub_cat by lia. rewrite app_assoc, firstn_sub_cat by lia. apply firstn_skipn.
+Qed.
+Lemma skipn_firstn_sub (l : list N) a b : skipn a (firstn b l) = sub l a b.
+Proof.
+  unfold sub, slice. revert a b; induction l as [|h t IH]; intros a b.
+  - now rewrite firstn_nil, !skipn_nil, firstn_nil.
+  - destruct b as [|b]; [now rewrite skipn_nil, Nat.sub_0_l|]. destruct a as [|a]; [now rewrite Nat.sub_0_r|].
+    cbn [firstn skipn Nat.sub]. apply IH.
 Qed.
